@@ -114,6 +114,14 @@ def run_once(case: dict, fault: dict | None, trace: bool = False) -> dict:
             import errno
             if fs is not None:
                 fs.fail_at[fs.mutations + fault['at']] = errno.ENOSPC
+        elif fault is not None and fault['kind'] == 'locktimeout':
+            # another process takes the UID-list lock of one of the two
+            # folders at this scheduler position and keeps it longer than
+            # FileLock waits: the command ends in NO [TIMEOUT]
+            step['faults'] = [{'kind': 'extlock', 'at': fault['at'],
+                               'mailbox': fault.get('mailbox', 'INBOX'),
+                               'hold': 40.0}]
+            step['horizon'] = 45.0
         elif fault is not None:
             step['faults'] = [{'kind': fault['kind'], 'sess': 0,
                                'at': fault['at']}]
@@ -241,17 +249,31 @@ def run_enumeration(case: dict, trace: bool = False) -> dict:
                  if op in SPACE_OPS]
         plan += [('oserror', at) for at in space]
         stats['fs_fault_points'] = len(space)
+        if base.get('fs_ops', 0):
+            # maildir: a lock timeout at 8 evenly spaced scheduler positions,
+            # on either folder
+            n = base['moves']
+            spots = sorted({round(k * n / 7) for k in range(8)})
+            plan += [('locktimeout:' + mb, at)
+                     for mb in ('INBOX', 'Dest') for at in spots]
         if only is not None:
-            plan = [(only['kind'], only['at'])]
+            plan = [(only['kind'] + (':' + only['mailbox']
+                                      if only.get('mailbox') else ''),
+                     only['at'])]
         for kind, at in plan:
-            r = run_once(case, {'kind': kind, 'at': at},
-                         trace and only is not None)
+            f = {'kind': kind, 'at': at}
+            if kind.startswith('locktimeout:'):
+                f = {'kind': 'locktimeout', 'at': at,
+                     'mailbox': kind.split(':', 1)[1]}
+            elif only is not None and only.get('mailbox'):
+                f['mailbox'] = only['mailbox']
+            r = run_once(case, f, trace and only is not None)
             stats['fault_runs'] += 1
             fired['fault:' + kind] = fired.get('fault:' + kind, 0) + 1
             digests.append(r['result']['digest'])
             if r['violations']:
                 for v in r['violations']:
-                    v['fault'] = {'kind': kind, 'at': at}
+                    v['fault'] = dict(f)
                 res['violations'] = r['violations']
                 if trace:
                     res['trace'] = r['result'].get('trace')
@@ -283,7 +305,10 @@ class C14(Profile):
             'target step that needs disk space (create, write-out at close, '
             'link, rename, mkdir) with that call raising OSError(ENOSPC): '
             'exhaustive '
-            'per base case. Probe dumps of both mailboxes '
+            'per base case; also on maildir, at 8 evenly spaced positions '
+            'and for either folder, another process takes the UID-list lock '
+            'for longer than FileLock waits, so that the command ends in '
+            'NO [TIMEOUT] (sampled, not exhaustive). Probe dumps of both mailboxes '
             'before and after. Oracle: conservation of tokens, APPEND '
             'all-or-nothing, completed MOVE in exactly one mailbox, NO/BAD '
             'changes nothing. evaluations = base cases; fault_runs counts '
